@@ -92,6 +92,10 @@ pub mod time {
     #[verifier::external_body]
     pub async fn sleep_until(deadline: Instant) { unimplemented!() }
 
+    pub mod error {
+        pub struct Elapsed { pub x: u8 }
+        impl Elapsed { pub fn new() -> Elapsed { Elapsed { x: 0 } } }
+    }
     // R21: a function-local ghost clock (virtual time in nanoseconds). Time passes only at `.await`s; a timer is armed when its
     // future is created (tokio::time::sleep computes its deadline at creation, sleep_until takes it as given).
     pub struct Clock { pub ghost t: int }
